@@ -87,7 +87,7 @@ func (f *frame) toSV(v Val, st *State) SV {
 
 // specEnv builds the evaluation environment for contract clauses of this frame.
 func (f *frame) specEnv(st *State, at *ssa.BasicBlock, overrides map[string]SV) *SpecEnv {
-	env := &SpecEnv{G: f.c.g, Pkg: f.fn.Pkg.Pkg, Vars: map[string]SV{}, Cur: st, Old: f.entry, Next0: f.entry.next}
+	env := &SpecEnv{G: f.c.g, Pkg: f.fn.Pkg.Pkg, Vars: map[string]SV{}, Cur: st, Old: f.entry, Next0: f.entry.next, FnScope: fnScope(f.fn)}
 	for i, p := range f.fn.Params {
 		env.Vars[p.Name()] = f.toSV(f.params[i], st)
 	}
